@@ -140,7 +140,7 @@ def main(tier, seed, only=None):
         "for loop puzzles 'no line at all' counts as a loop (the library's documented convention)",
     ]
     shards = [("example", n) for n in names] + shards
-    par.run_shards(run, worker, shards, seed, shard_limit=600)
+    par.run_shards(run, worker, shards, seed, shard_limit=1800)
     cov = {"evaluations": run.c("evaluations"), "distinct_nontrivial": run.n("nontrivial"), "shapes": run.n("shapes"), "puzzles": len(names), "exhaustive": True}
     return run.finish(cov)
 
